@@ -163,8 +163,13 @@ class MaterialFile(BaseMaterial):
         """
         c = self.coefficients
         try:
-            n = c[0] + c[1]*w**c[2] / (w**2 - c[3]**c[4]) + \
-                c[5]*w**c[6] / (w**2 - c[7]**c[8])
+            # a resonance term that is absent from the file is zero-padded;
+            # evaluating it anyway divides by w**2 - 0**0 = 0 at w = 1
+            n = c[0]
+            if c[1] != 0:
+                n = n + c[1]*w**c[2] / (w**2 - c[3]**c[4])
+            if c[5] != 0:
+                n = n + c[5]*w**c[6] / (w**2 - c[7]**c[8])
             for k in range(9, len(c), 2):
                 n += c[k]*w**c[k+1]
             return np.sqrt(n)
